@@ -651,10 +651,17 @@ pub fn leaf_constants(repo: &str, out: &mut Out) {
         Some(func) => {
             let mut v = GtLit(vec![]);
             v.visit_block(&func.block);
-            let uses_len = toks(&func.block).contains("s . len ()");
-            match (v.0.as_slice(), uses_len) {
-                ([n], true) => out.def_n("latin1_max_len", *n as u128, "latin1.rs Latin1::from_str: if s.len() > N"),
-                _ => errs.push("latin1.rs: expected `let length = s.len(); if length > <int>`".into()),
+            // the limit counts characters: `let length = s.chars().count();`
+            let body = toks(&func.block);
+            let counts_chars = body.contains("let length = s . chars () . count () ;") && !body.contains("s . len ()");
+            // the literal is copied whenever it is found; what it is compared with is a shape
+            // obligation of its own (the model counts characters)
+            match v.0.as_slice() {
+                [n] => out.def_n("latin1_max_len", *n as u128, "latin1.rs Latin1::from_str: if length > N"),
+                _ => errs.push("latin1.rs: expected exactly one `> <int>` in Latin1::from_str".into()),
+            }
+            if !counts_chars {
+                errs.push("latin1.rs: expected `let length = s.chars().count();` (the limit counts characters)".into());
             }
         }
         None => errs.push("latin1.rs: impl FromStr for Latin1 not found".into()),
@@ -677,8 +684,48 @@ pub fn leaf_constants(repo: &str, out: &mut Out) {
             _ => errs.push(format!("{file}: from_map / to_ns_map not found")),
         }
     }
+    // shapes of the hand-written leaf code the model reproduces (no constants to copy; a change of
+    // shape must be looked at, so it fails the item)
+    let shape = |errs: &mut Vec<String>, file: &str, what: &str, needles: &[&str], absent: &[&str]| {
+        let src = std::fs::read_to_string(format!("{base}/{file}")).unwrap_or_default();
+        let code = match syn::parse_file(&src) {
+            Ok(f) => f
+                .items
+                .iter()
+                .filter(|it| !matches!(it, syn::Item::Mod(m) if m.attrs.iter().any(|a| toks(a).contains("test"))))
+                .map(|it| toks(it))
+                .collect::<Vec<_>>()
+                .join("\n"),
+            Err(e) => {
+                errs.push(format!("{file}: {e}"));
+                return;
+            }
+        };
+        for n in needles {
+            if !code.contains(n) {
+                errs.push(format!("{file}: {what}: expected `{n}`"));
+            }
+        }
+        for n in absent {
+            if code.contains(n) {
+                errs.push(format!("{file}: {what}: unexpected `{n}`"));
+            }
+        }
+    };
+    shape(&mut errs, "fulldate.rs", "Display / FromStr of FullDate",
+          &["\"{:04}-{:0>2}-{:0>2}\"", "s . as_bytes () . first () . map_or (false , u8 :: is_ascii_digit)", "Date :: parse (s , FORMAT)"], &[]);
+    shape(&mut errs, "org_iso_18013_5_1/tdate.rs", "TDate::from_json",
+          &["date_str . as_bytes () . get (10) , Some (b'T' | b't' | b' ')", "date_str . as_bytes () . get (17 .. 19) == Some (& b\"60\" [..])",
+            "OffsetDateTime :: parse (& date_str , & Rfc3339)", ". checked_to_offset (UtcOffset :: UTC)", ". replace_millisecond (0)", ". format (& Rfc3339)"],
+          &[". to_offset (", ". format (& Rfc3339) . unwrap ()"]);
+    shape(&mut errs, "org_iso_18013_5_1/biometric_template.rs", "BiometricTemplate::from_map",
+          &["k . strip_prefix (\"biometric_template_\") . filter (| k | ! k . is_empty ())"], &[]);
+    shape(&mut errs, "org_iso_18013_5_1/issuing_jurisdiction.rs", "IssuingJurisdiction::from_map",
+          &["map . get (\"issuing_jurisdiction\") . filter (| v | ! v . is_null ()) . ok_or (FromJsonError :: Missing) . and_then (String :: from_json) ?",
+            "map . get (\"issuing_country\") . ok_or (FromJsonError :: Missing) . and_then (Alpha2 :: from_json) ?",
+            "jurisdiction . starts_with (country . as_str ())"], &[]);
     if errs.is_empty() {
-        out.ok("leaf_constants", "fulldate tag, tdate tag, Latin1 limit, two dynamic prefixes");
+        out.ok("leaf_constants", "fulldate tag, tdate tag, Latin1 limit (characters), two dynamic prefixes, shapes of the five hand-written conversions");
     } else {
         out.fail("leaf_constants", &errs.join("; "));
     }
